@@ -222,11 +222,17 @@ func mergeStates(es []edgeState) *State {
 			bv := out.cells[k]
 			av, ok := a.cells[k]
 			if !ok {
-				delete(out.cells, k)
+				// not allocated on that path: the value is only ever read where the allocation
+				// dominates, so keeping the other path's value is harmless (and keeps hints)
 				continue
 			}
 			if !sameVal(av, bv) {
 				out.cells[k] = iteVal(c, av, bv)
+			}
+		}
+		for _, k := range sortedCells(a.cells) {
+			if _, ok := out.cells[k]; !ok {
+				out.cells[k] = a.cells[k]
 			}
 		}
 		keys := map[string]bool{}
